@@ -112,6 +112,7 @@ class C10(MonitorCheck):
                    'components for which the reference relation is undetermined are counted, not '
                    'judged']
     PROBES = ('nonempty_unifiers', 'empty_results', 'supertype_mode', 'projection_pattern',
+              'nested_related_constructor',
               'bounded_variable', 'postrun_unifications')
     tiers = {'quick': {'runs': 260, 'wall_s': 70, 'run_timeout_s': 200},
              'thorough': {'runs': 4000, 'wall_s': 1100, 'run_timeout_s': 900}}
@@ -188,6 +189,33 @@ class C10(MonitorCheck):
                             pass
                 if npost >= 60:
                     break
+            # nested argument whose constructor differs from the pattern's but is related to it
+            # by inheritance (B<Y> : C<Y>), in both matching modes: A<B<g>> against A<C<T>>
+            f = run.program.bt_factory
+            ground = [f.get_string_type(), f.get_integer_type(), f.get_boolean_type()]
+            pairs = []
+            for d in decls.values():
+                for sc in d.superclasses:
+                    t = sc.class_type
+                    if isinstance(t, tp.ParameterizedType) and t.name in decls:
+                        pairs.append((d, decls[t.name]))
+            nn = 0
+            for (b, c_) in pairs[:6]:
+                for a in list(decls.values())[:5]:
+                    try:
+                        bt = b.get_type().new([ground[i % 3] for i in range(len(b.type_parameters))])
+                        ct = c_.get_type().new(list(c_.type_parameters))
+                        rest = [ground[(i + 1) % 3] for i in range(len(a.type_parameters) - 1)]
+                        target = a.get_type().new([bt] + rest)
+                        pattern = a.get_type().new([ct] + rest)
+                        for same in (False, True):
+                            tu.unify_types(target, pattern, f, same_type=same)
+                            nn += 1
+                    except Exception:   # noqa
+                        pass
+            npost += nn
+            if nn:
+                probes['nested_related_constructor'] = nn
         monitors.Recorder.current = None
         probes['postrun_unifications'] = npost
         probes['empty_results'] = getattr(rec, 'unif_empty', 0)
